@@ -659,7 +659,10 @@ def gen_versions(seed, tier, focus):
             # share numbers rolled back to an older published image on every server just before this publish (C11): the
             # publish's own survey then sees a newer version that may no longer be recoverable
             [[sh, ch.randrange(W, ("rb-oldv", v, sh), 8)] for sh in ch.sample(W, ("rb", v), range(cfg["n"]), ch.randint(W, ("nrb", v), 1, cfg["n"]))]
-            if focus == "C11" and v >= 2 and ch.chance(W, ("rollback", v), 0.35) else []]
+            if focus == "C11" and v >= 2 and ch.chance(W, ("rollback", v), 0.35) else [],
+            # how the new version is written: a plain overwrite, or modify() through a version object obtained before the
+            # previous publish (a long-lived handle): its own survey may then locate a newer version than the one it holds
+            ch.pick(W, ("via", v), ["overwrite", "overwrite", "held-modify"]) if focus == "C11" and v >= 2 else "overwrite"]
            for v in range(nver)]
     muts = []
     F = "faults"
@@ -816,10 +819,20 @@ def exec_versions(case):
                     for shnum, raw in s.shares_of(fsi).items():
                         foreign_raw[shnum] = raw
         prev_down = []
+        held_versions = {}
         for vi, op in enumerate(pubs):
             _, size, pat, down = op[:4]
             rollback = op[4] if len(op) > 4 else []
+            via = op[5] if len(op) > 5 else "overwrite"
             data = pat_bytes(pat, size)
+            held_now = held_versions.get(vi - 2) if via == "held-modify" else None
+            if via == "held-modify" and (held_now is None or not published or rollback):
+                via = "overwrite"
+            if via == "held-modify":
+                # the modifier appends a token; applied to the newest version the survey can recover
+                newest_before = max(published, key=lambda v: v[1])
+                token_ = b"|held-modify-%d" % vi
+                data = published[newest_before] + token_
             if rollback and images and si:
                 for (shnum, oldv) in rollback:
                     older = images[oldv % len(images)]
@@ -848,10 +861,51 @@ def exec_versions(case):
                     node = res
                     cap = node.get_uri()
                     si = si_of_cap(cap)
+            elif via == "held-modify":
+                # ground truth before the operation: the highest sequence number recoverable from the servers the writer can reach
+                reach_ = [s_ for i_, s_ in enumerate(g.servers) if i_ not in down]
+                vb_ = versions_on_disk(disk_state(reach_, si))
+                best_seq_before = max([v[1] for v, shm in vb_.items() if len(shm) >= k and v in published] + [-1])
+
+                def modifier_(old, servermap, first_time, token_=token_):
+                    return old if old.endswith(token_) else old + token_
+                sn0_ = len(mapmon.snaps)
+                st, res = run(held_now.modify(modifier_))
+                probe("held-modify")
+                # what modify()'s own survey(s) had located (snapshot at the instant each map update declared itself done):
+                # the highest sequence number of which >= k distinct shares were in the map
+                located_best = -1
+                for sn_ in mapmon.snaps[sn0_:]:
+                    byv = {}
+                    for (nm_, sh_, seq_, root_) in sn_["shares"]:
+                        byv.setdefault((seq_, root_), set()).add(sh_)
+                    located_best = max([located_best] + [sq for (sq, rt), shs in byv.items() if len(shs) >= k])
+                best_seq_before = min(best_seq_before, located_best) if located_best >= 0 else -1
             else:
                 st, res = run(node.overwrite(MutableData(data)))
             a_end = len(mon.answers)
             settle(300_000)
+            if via == "held-modify" and st == "ok":
+                # modify() re-surveys before it writes: it must have applied the modifier to the newest version that survey
+                # could recover, which (all of the writer's servers being reachable now or not) is at least the newest one
+                # whose shares the writer's reachable servers hold
+                rdc_ = g.add_client(k=k, happy=1, n=n)
+                stc_, got_ = run(rdc_.create_node_from_uri(cap).download_best_version(), 300_000)
+                if stc_ == "ok" and got_ != data and got_.endswith(token_):
+                    base_ = got_[:-len(token_)]
+                    base_seqs = [v[1] for v, d_ in published.items() if d_ == base_]
+                    if base_seqs and max(base_seqs) < best_seq_before:
+                        bad("C11", "modify-applied-to-older-version", "modify() through a long-held version object applied the modifier to the contents of "
+                            "seq %d although seq %d was recoverable from the servers it could reach (its own survey located it)" % (
+                                max(base_seqs), best_seq_before))
+                    else:
+                        probe("held-modify-on-equal-seq-competitor")
+            if node is not None and st == "ok":
+                # a handle on the version just published, for a later held-modify
+                sth, mfv_ = run(node.get_best_mutable_version(), 300_000)
+                if sth == "ok":
+                    held_versions[vi] = mfv_
+                settle(300_000)
             for sidx in down:
                 if sidx < len(g.servers):
                     g.reconnect(w, g.servers[sidx])
